@@ -55,7 +55,7 @@ func hC15Slots(x interface{ Operands() []*value.Value }) bool {
 func VfC15_Parsed() {
 	a := hLetterIn("a", 'a', 'e')
 	src := "declare i32 @pers(...)\ndeclare i32 @g(i32, i32)\n" +
-		"define i32 @" + a + "(i32 %x, i1 %c, i32* %p, { i32, i8 } %agg, [4 x i32]* %arr) personality i8* bitcast (i32 (...)* @pers to i8*) {\nentry:\n" +
+		"define i32 @" + a + "(i32 %x, i1 %c, i32* %p, { i32, i8 } %agg, [4 x i32]* %arr, i32 %victim) personality i8* bitcast (i32 (...)* @pers to i8*) {\nentry:\n" +
 		"\tswitch i32 %x, label %m [ i32 1, label %m\n i32 2, label %m\n i32 3, label %n ]\n" +
 		"m:\n\t%ph = phi i32 [ %x, %entry ], [ %x, %entry ], [ %x, %entry ]\n" +
 		"\t%s = select i1 %c, i32 %ph, i32 %x\n" +
@@ -63,6 +63,7 @@ func VfC15_Parsed() {
 		"\t%q = getelementptr [4 x i32], [4 x i32]* %arr, i32 %s, i32 %s\n" +
 		"\t%iv = insertvalue { i32, i8 } %agg, i32 %s, 0\n" +
 		"\t%cl = call i32 @g(i32 %s, i32 %s) [ \"deopt\"(i32 %s, i32 %x), \"tag\"(i32 %x) ]\n" +
+		"\t%cl2 = call i32 @g(i32 signext %victim, i32 %victim) [ \"deopt\"(i32 %victim) ]\n" + // an argument with a parameter attribute
 		"\tbr i1 %c, label %n, label %n\n" +
 		"n:\n\t%ph2 = phi i32 [ 0, %entry ], [ %cl, %m ], [ %cl, %m ]\n" +
 		"\t%inv = invoke i32 @g(i32 %ph2, i32 %ph2) to label %ok unwind label %lp\n" +
@@ -76,6 +77,25 @@ func VfC15_Parsed() {
 		return
 	}
 	f := m.Funcs[2]
+	// substituting a value through the slots of all its users leaves no use
+	// behind: replace the parameter %victim everywhere, then no instruction
+	// prints it any more
+	victim := value.Value(f.Params[5])
+	repl := value.Value(ir.NewParam("replacement", f.Params[5].Typ))
+	for _, b := range f.Blocks {
+		for _, inst := range b.Insts {
+			for _, op := range inst.Operands() {
+				if *op == victim {
+					*op = repl
+				}
+			}
+		}
+	}
+	for _, b := range f.Blocks {
+		for _, inst := range b.Insts {
+			vfAssert("C15.parsed.substitution-leaves-no-use", !hContains(inst.LLString(), "%victim"))
+		}
+	}
 	for _, b := range f.Blocks {
 		for _, inst := range b.Insts {
 			vfAssert("C15.parsed.instruction-slots", hC15Slots(inst))
